@@ -337,10 +337,22 @@ def run_program(tier, idx, prog=None, plan=None, seed=None, kms=None):
                     try: hash(v); return True
                     except TypeError: return False
                 def _encodable(v):
+                    if kms[0][0] == 'stringl':
+                        # (a keymap with a narrow codec has no key for text outside the codec: the user's choice of codec, not a defect)
+                        try: repr(v).encode('latin_1'); return True
+                        except UnicodeEncodeError: return False
                     if kms[0][0] != 'picklep': return True
                     try: __import__('pickle').dumps(v); return True        # (instances of classes made by exec cannot be pickled by reference)
                     except Exception: return False
-                if rec['bind'] is not None and all(_hashable(v) and _encodable(v) for v in list(a) + list(k.values())):
+                def _codec_ok():
+                    if ua is None: return True
+                    if kms[0][0] == 'picklep':
+                        try: __import__('pickle').dumps((ua, uk)); return True      # (defaults and a partial's fixed arguments are in the key too)
+                        except Exception: return False
+                    if kms[0][0] != 'stringl': return True
+                    try: repr((ua, uk)).encode('latin_1'); return True
+                    except UnicodeEncodeError: return False
+                if rec['bind'] is not None and _codec_ok() and all(_hashable(v) and _encodable(v) for v in list(a) + list(k.values())):
                     tags['valid-hashable-call'] += 1
                     dent = rec['keys'][-1] if rec['keys'] else None
                     if 'exc' in rec['keygen'] or (dent is not None and 'exc' in dent):
